@@ -27,6 +27,9 @@ OPS = [
     {"op": "incr", "k": "a", "d": 1, "nr": None}, {"op": "decr", "k": "a", "d": 1, "nr": None}, {"op": "set", "k": "a", "v": b"9", "nr": None},
     {"op": "delete", "k": "a", "nr": None}, {"op": "touch", "k": "a", "e": 5, "nr": None}, {"op": "cas", "k": "a", "v": b"6", "cas": b"1", "nr": None},
     {"op": "delete_many", "ks": ["a", "b"], "nr": None}, {"op": "set_many", "items": [("a", b"1"), ("b", b"2")], "nr": None}, {"op": "flush_all", "d": 0, "nr": None},
+    # noreply given as a truthy value that is not the object True (a positional 1, a number from a config file)
+    {"op": "incr", "k": "a", "d": 1, "nr": 1}, {"op": "decr", "k": "a", "d": 1, "nr": 1}, {"op": "delete", "k": "a", "nr": 1}, {"op": "touch", "k": "a", "e": 5, "nr": 1},
+    {"op": "delete_many", "ks": ["a", "b"], "nr": 1}, {"op": "flush_all", "d": 0, "nr": 1}, {"op": "set", "k": "a", "v": b"1", "nr": 1},
     # the administrative operations (always wait for a reply; `shutdown` against a server without --enable-shutdown gets an error line,
     # the fault scripts give it the closing server).  PooledClient has no cache_memlimit, HashClient neither that nor shutdown: AttributeError there.
     {"op": "stats"}, {"op": "stats", "args": ("items",)}, {"op": "stats", "args": ("cachedump", "1", "1")},
@@ -179,6 +182,8 @@ def scripts_for(op_has_reply, rng, thorough):
     for after in (-1, 16, 9):
         out.append({"send_fault": "timeout", "send_after": after})
         out.append({"send_fault": "reset", "send_after": after})
+        out.append({"send_fault": "eintr", "send_after": after})      # sendall interrupted by a signal after part of the data went out
+    out.append({"send_fault": "eintr"})
     if op_has_reply:
         for kind in FAULT_KINDS + ["eintr"]:
             for pos in range(0, 14 if thorough else 8):
